@@ -8,7 +8,8 @@
     [vm_compute] for the extraction self-check.  All values are integers ([Z]):
     [-1] = None, [-2] = the call panicked, booleans 0/1. *)
 From Verif Require Import Base.Prelude Model.ShortMsg Model.PerChannel Model.CC14 Model.Nrpn
-  Model.Polling Spec.MidiTable Spec.CC14Spec Spec.NrpnSpec Spec.PollMonitor.
+  Model.Polling Spec.MidiTable Spec.ScannerSpec Spec.CC14Spec Spec.NrpnSpec Spec.PollMonitor Spec.ConstSpec
+  Generated.CtrlConsts.
 Open Scope Z_scope.
 
 Record verdict : Type := mkV { v_agree : bool; v_holds : bool; v_model : list Z }.
@@ -369,6 +370,155 @@ Definition check_132 (timeout : N) (l : list Z) (obs : list Z) : verdict :=
          listZ_eqb others_a others_b)
         model.
 
+(** * scanner-level properties C15 / C16 / C17 (kind 0: 14-bit CC, 1: (N)RPN, 2: polling) *)
+Definition width (kind : Z) : nat := if Z.eqb kind 0 then 3%nat else if Z.eqb kind 1 then 6%nat else 12%nat.
+
+(** runs [ops] after the prefix [pre] from a new scanner; [fresh]: the prefix only advances the
+    clock (a new scanner is used for [ops]) *)
+Definition run_enc (kind : Z) (timeout : N) (fresh : bool) (pre ops : list Z) : list Z :=
+  if Z.eqb kind 0 then
+    match cc14_run cc14_new_scanner (dec_cc14ops pre) with
+    | Ok (s, _) => outs_or_panic (cc14_run (if fresh then cc14_new_scanner else s) (dec_cc14ops ops)) enc_cc14
+    | Panic => [ZPANIC]
+    end
+  else if Z.eqb kind 1 then
+    match pn_run pn_new_scanner (dec_pnops pre) with
+    | Ok (s, _) => outs_or_panic (pn_run (if fresh then pn_new_scanner else s) (dec_pnops ops)) enc_pn
+    | Panic => [ZPANIC]
+    end
+  else
+    match poll_run 0 (poll_new_scanner timeout) (dec_sops pre) with
+    | Ok (now, s, _) =>
+        match poll_run now (if fresh then poll_new_scanner timeout else s) (dec_sops ops) with
+        | Ok (_, _, outs) => flat_map enc_out2 outs
+        | Panic => [ZPANIC]
+        end
+    | Panic => [ZPANIC]
+    end.
+
+Fixpoint chunks (fuel : nat) (w : nat) (l : list Z) : list (list Z) :=
+  match fuel with
+  | O => []
+  | S f => match l with [] => [] | _ => firstn w l :: chunks f w (skipn w l) end
+  end.
+
+Fixpoint filter_ops_z (c : N) (ops : list Z) : list Z :=
+  match ops with
+  | k :: a :: b :: x :: t =>
+      let o := match dec_sops [k; a; b; x] with o :: _ => o | [] => OReset end in
+      if relevant c o then k :: a :: b :: x :: filter_ops_z c t else filter_ops_z c t
+  | _ => []
+  end.
+
+(** channel the operation concerns (None: resets, ticks and system messages) *)
+Definition op_channel (o : sop) : option N :=
+  match o with
+  | OFeed b => channel_table (fst (fst b))
+  | OPoll c => Some c
+  | _ => None
+  end.
+
+(** every message of a result chunk carries channel [c] (message channel = first integer of each
+    message; cc14: 3 integers per message, otherwise 6) *)
+Fixpoint chunk_channels_ok (fuel : nat) (mw : nat) (c : Z) (l : list Z) : bool :=
+  match fuel with
+  | O => true
+  | S f =>
+      match l with
+      | [] => true
+      | x :: _ => (Z.eqb x ZNONE || Z.eqb x c) && chunk_channels_ok f mw c (skipn mw l)
+      end
+  end.
+
+Definition chunk_ok (kind : Z) (o : sop) (ch : list Z) : bool :=
+  match op_channel o with
+  | Some c => chunk_channels_ok 4 (if Z.eqb kind 0 then 3 else 6)%nat (zN c) ch
+  | None => forallb (fun z => Z.eqb z ZNONE) ch
+  end.
+
+Fixpoint all_chunks_ok (kind : Z) (h : list sop) (cs : list (list Z)) : bool :=
+  match h, cs with
+  | o :: h', c :: cs' => chunk_ok kind o c && all_chunks_ok kind h' cs'
+  | [], [] => true
+  | _, _ => false
+  end.
+
+(** tag 150: interleaved run, then one own-scanner run per listed channel *)
+Definition check_150 (kind : Z) (timeout : N) (chans : list N) (ops obs : list Z) : verdict :=
+  let h := dec_sops ops in
+  let w := width kind in
+  let model :=
+    run_enc kind timeout false [] ops ++
+    flat_map (fun c => run_enc kind timeout false [] (filter_ops_z c ops)) chans in
+  let n := length h in
+  let multi := chunks (S n) w (firstn (n * w) obs) in
+  let rest := skipn (n * w) obs in
+  let fix segs (cs : list N) (l : list Z) : bool :=
+      match cs with
+      | [] => match l with [] => true | _ => false end
+      | c :: cs' =>
+          let k := length (filter (relevant c) h) in
+          listZ_eqb (concat (outs_on (list Z) c h multi)) (firstn (k * w) l)
+          && Nat.eqb (length (firstn (k * w) l)) (k * w)
+          && segs cs' (skipn (k * w) l)
+      end in
+  mkV (listZ_eqb obs model)
+      (Nat.eqb (length multi) n && all_chunks_ok kind h multi && segs chans rest)
+      model.
+
+(** tag 160: a non-contributing message after a prior history: reports nothing, state equal *)
+Definition check_160 (kind : Z) (timeout : N) (prior msg obs : list Z) : verdict :=
+  let nc := match dec_sops msg with
+            | [OFeed b] => if Z.eqb kind 0 then noncontrib_cc14 b else noncontrib_pn b
+            | _ => false
+            end in
+  if negb nc then bad_record
+  else
+    (* the model reports nothing for the message, and continues identically with or without it *)
+    let out := run_enc kind timeout false prior msg in
+    let m_none := forallb (fun z => Z.eqb z ZNONE) out in
+    let model := [zb m_none; 1] in
+    verdict_of obs model [1; 1].
+
+(** tag 161: the ControllerNumber predicates, and whether each scanner reacts to the controller *)
+Definition check_161 (n : N) (obs : list Z) : verdict :=
+  let in_pn := existsb (N.eqb n) [6; 38; 96; 97; 98; 99; 100; 101]%N in
+  let model := [zb (can_be_part_of_14_bit n); zopt (corresponding_lsb n);
+                zb (is_parameter_number_cn n);
+                zb (N.ltb n 64); zb in_pn; zb in_pn] in
+  let spec := [zb (N.ltb n 64); (if N.ltb n 32 then zN (n + 32) else ZNONE); zb in_pn;
+               zb (N.ltb n 64); zb in_pn; zb in_pn] in
+  verdict_of obs model spec.
+
+(** tag 162: the controller-number constants (generated table) *)
+Definition check_162 (idx : nat) (obs : list Z) : verdict :=
+  match nth_error ctrl_consts idx with
+  | Some (name, v) =>
+      let spec := match lsb_expected ctrl_consts name with
+                  | Some e => [zN e]
+                  | None => match obs with [x] => if Z.leb 0 x && Z.ltb x 128 then [x] else [ZNONE]
+                                      | _ => [ZNONE] end
+                  end in
+      verdict_of obs [zN v] spec
+  | None => bad_record
+  end.
+
+(** tag 170: reset / default / copy *)
+Definition check_170 (kind : Z) (timeout : N) (ops1 ops2 obs : list Z) : verdict :=
+  let after_reset := run_enc kind timeout true ops1 ops2 in
+  let cont := run_enc kind timeout false ops1 ops2 in
+  let model := [1; 1; 1] ++ after_reset ++ after_reset ++ cont ++ cont in
+  let n := (length (dec_sops ops2) * width kind)%nat in
+  let body := skipn 3 obs in
+  let a := firstn n body in
+  let b := firstn n (skipn n body) in
+  let c := firstn n (skipn (2 * n) body) in
+  let d := skipn (3 * n) body in
+  mkV (listZ_eqb obs model)
+      (listZ_eqb (firstn 3 obs) [1; 1; 1] && Nat.eqb (length obs) (3 + 4 * n) &&
+       listZ_eqb a b && listZ_eqb c d)
+      model.
+
 Definition check (tag : Z) (inp obs : list Z) : verdict :=
   match tag, inp with
   | 70, [ch; cn; v] => verdict_of obs (model_70 (nz ch) (nz cn) (nz v)) (spec_70 (nz ch) (nz cn) (nz v))
@@ -393,5 +543,15 @@ Definition check (tag : Z) (inp obs : list Z) : verdict :=
       check_131 (nz timeout) (dec_sops a) (dec_sops b) obs
   | 132, timeout :: l => check_132 (nz timeout) l obs
   | 140, timeout :: h => check_140 (nz timeout) (dec_sops h) obs
+  | 150, kind :: timeout :: nch :: c1 :: c2 :: c3 :: ops =>
+      check_150 kind (nz timeout) (firstn (Z.to_nat nch) [nz c1; nz c2; nz c3]) ops obs
+  | 160, kind :: timeout :: nprior :: rest =>
+      let '(prior, msg) := take_ops (Z.to_nat nprior) rest in
+      check_160 kind (nz timeout) prior msg obs
+  | 161, [n] => check_161 (nz n) obs
+  | 162, [idx] => check_162 (Z.to_nat idx) obs
+  | 170, kind :: timeout :: n1 :: rest =>
+      let '(ops1, ops2) := take_ops (Z.to_nat n1) rest in
+      check_170 kind (nz timeout) ops1 ops2 obs
   | _, _ => bad_record
   end.
